@@ -30,6 +30,8 @@ type actCase struct {
 	kinds    [3]string
 	idx      int
 	features string
+	// a regular file exists at the address argument before the child starts
+	occupied bool
 }
 
 var actFdsPool = []string{"", "foo", "-1", "0", "1", "2", "3", "+1", "01", " 1", "1 ", "1_0", "0x1", "２", "99999999999999999999", "+", "-"}
@@ -160,6 +162,14 @@ func runActCase(c actCase, dir string) (obs string, pid int, pidEnv *string, err
 	}()
 	fb := filepath.Join(dir, "fb")
 	addrOf[fb] = "fallback"
+	// in every other case something already exists at the address: a service that uses an inherited socket
+	// "ignores the address argument", so that file must still be there, untouched, afterwards
+	occupied := c.occupied
+	if occupied {
+		if err := os.WriteFile(fb, []byte("not a socket"), 0o600); err != nil {
+			return "", 0, nil, err
+		}
+	}
 	cmd := exec.Command(exe, "actchild", "unix:"+fb)
 	cmd.ExtraFiles = files
 	env := []string{}
@@ -239,7 +249,11 @@ func runActCase(c actCase, dir string) (obs string, pid int, pidEnv *string, err
 	}
 	// when an inherited socket is used the fallback address must not have been bound
 	if label != "fallback" {
-		if _, err := os.Stat(fb); err == nil {
+		if occupied {
+			if b, err := os.ReadFile(fb); err != nil || string(b) != "not a socket" {
+				return "childerr:address-argument-touched", pid, pidEnv, nil
+			}
+		} else if _, err := os.Stat(fb); err == nil {
 			return "childerr:fallback-bound-too", pid, pidEnv, nil
 		}
 	}
@@ -340,6 +354,7 @@ func init() {
 			go func(i int) {
 				defer wg.Done()
 				defer func() { <-sem }()
+				cases[i].occupied = i%2 == 1
 				obs, pid, pidEnv, err := runActCase(cases[i], filepath.Join(base, strconv.Itoa(i)))
 				if err != nil {
 					mu.Lock()
